@@ -47,6 +47,8 @@ CFGS = {
                      LifeReqs='<- MCLifeAbsent0', Txids='{"t1", "t2"}', MaxDepth='6'),
     "MC_stream": dict(kind="mc", doc="a datagram client and a stream client with the same IP and port (5-tuples differ in the transport only); the control connection closes",
                       Clients='{"c1", "s1"}', PeerIPs='{"A"}', PeerPorts='{1}', ChanNums='{16384}', LifeReqs='<- MCLifeAbsent0', MaxDepth='6'),
+    "MC_stream2": dict(kind="mc", doc="two stream clients with the same IP and port on two stream listeners (5-tuples differ in the server address only); either connection closes",
+                       Clients='{"s1", "sx"}', PeerIPs='{"A"}', PeerPorts='{1}', ChanNums='{16384}', LifeReqs='<- MCLifeAbsent0', MaxDepth='6'),
     # ---- Engine A generation slices (every edge printed) ----------------------------------
     "GEN_relayA": dict(kind="gen", doc="one client: permissions, channels, both data paths, expiry (perm 2, chan 3, life 5)",
                        PermSeqs='<- MCPermSeqsAB', MaxDepth='6'),
@@ -81,6 +83,8 @@ CFGS = {
                         PeerIPs='{"A"}', PeerPorts='{1, 2}', ChanNums='{16384}', PermSeqs='<- MCPermSeqs1', MaxDepth='7'),
     "GEN_stream": dict(kind="gen", doc="a datagram client and a stream client with the same IP and port; the control connection closes",
                        Clients='{"c1", "s1"}', PeerIPs='{"A"}', PeerPorts='{1}', ChanNums='{16384}', LifeReqs='<- MCLifeAbsent0', MaxDepth='5'),
+    "GEN_stream2": dict(kind="gen", doc="two stream clients with the same IP and port on two stream listeners; either connection closes",
+                        Clients='{"s1", "sx"}', PeerIPs='{"A"}', PeerPorts='{1}', ChanNums='{16384}', LifeReqs='<- MCLifeAbsent0', MaxDepth='5'),
     "GEN_chan3": dict(kind="gen", doc="three channel numbers bound at different times: a binding that is not the newest expires while the others live on",
                       PeerIPs='{"A"}', PeerPorts='{1, 2, 3}', ChanNums='{16384, 16385, 16386}', PermSeqs='<- MCPermSeqs1', LifeReqs='<- MCLifeAbsent',
                       DefaultLife='9', PermTO='4', ChanTO='4', MaxDepth='8'),
